@@ -361,6 +361,13 @@ class OrderedRingBuffer(Generic[FloatArray]):
         start = max(start, self.oldest_timestamp)
         end = min(end, self.newest_timestamp + self._sampling_period)
 
+        # Align the window to the slots of the buffer, so that it contains exactly
+        # the samples with `start <= timestamp < end`.  Otherwise arbitrary
+        # timestamps would lead to gaps being filled at the wrong positions, and
+        # windows shorter than a sampling period could be taken for the full buffer.
+        start = self._align_to_next_slot(start)
+        end = self._align_to_next_slot(end)
+
         if start >= end:
             return np.array([]) if isinstance(self._buffer, np.ndarray) else []
 
@@ -374,6 +381,23 @@ class OrderedRingBuffer(Generic[FloatArray]):
         if fill_value is not None:
             window = self._fill_gaps(window, fill_value, start, self.gaps)
         return window
+
+    def _align_to_next_slot(self, timestamp: datetime) -> datetime:
+        """Return the first slot timestamp that is not before the given timestamp.
+
+        Args:
+            timestamp: The timestamp to align.
+
+        Returns:
+            The given timestamp if it is the timestamp of a slot, the timestamp of
+                the next slot otherwise.
+        """
+        num_samples, remainder = divmod(
+            (timestamp - self._time_index_alignment), self._sampling_period
+        )
+        if remainder != timedelta(0):
+            num_samples += 1
+        return self._time_index_alignment + num_samples * self._sampling_period
 
     def _fill_gaps(
         self,
